@@ -546,10 +546,14 @@ static void op_hupdate(void)
     gbuf d; gvalue(&d, "in", kv("d", "-"), 1);
     unsigned char *dc = dupbuf(&d);
     gro(&d);
+    long vg0 = VG_ERRORS();
+    SECRET(d.p, d.len);
     tinyjambu_hash_update((tinyjambu_hash_state_t *)o->p, gptr(&d), d.len);
+    PUBLIC(d.p, d.len);
+    long vgerr = VG_ERRORS() - vg0;
     grw(&d);
     emit_obj("HUpdate", o); jbytes("d", dc, d.len); jint("null", d.isnull); jint("inmod", !inputs_same(&d, dc));
-    jint("dcanary", gcanary(&d)); jend();
+    jint("dcanary", gcanary(&d)); jint("taint", vgerr); jend();
     free(dc); gfree(&d);
 }
 static void op_hfinal(void)
@@ -557,8 +561,11 @@ static void op_hfinal(void)
     gbuf *o = getobj(hashobj, "hashstate", sizeof(tinyjambu_hash_state_t));
     gbuf out; galloc(&out, "out", 32, g_place, g_offn > 0 ? g_off[0] : 0);
     memset(out.p, (int)kvi("pf", 0xA5), 32);
+    long vg0 = VG_ERRORS();
     tinyjambu_hash_finalize((tinyjambu_hash_state_t *)o->p, out.p);
-    emit_obj("HFinal", o); jbytes("out", out.p, 32); jint("ocanary", gcanary(&out)); jend();
+    PUBLIC(out.p, 32);
+    long vgerr = VG_ERRORS() - vg0;
+    emit_obj("HFinal", o); jbytes("out", out.p, 32); jint("ocanary", gcanary(&out)); jint("taint", vgerr); jend();
     gfree(&out);
 }
 static void op_hfree(void)
@@ -592,10 +599,14 @@ static void op_hminit(int re)
     gbuf *o = getobj(hmacobj, "hmacstate", sizeof(tinyjambu_hmac_state_t));
     gbuf k; gvalue(&k, "key", kv("k", "-"), 2);
     gro(&k);
+    long vg0 = VG_ERRORS();
+    SECRET(k.p, k.len);
     if (re) tinyjambu_hmac_reinit((tinyjambu_hmac_state_t *)o->p, gptr(&k), k.len);
     else tinyjambu_hmac_init((tinyjambu_hmac_state_t *)o->p, gptr(&k), k.len);
+    PUBLIC(k.p, k.len);
+    long vgerr = VG_ERRORS() - vg0;
     grw(&k);
-    emit_obj(re ? "HmReinit" : "HmInit", o); jbytes("k", k.p, k.len); jint("kcanary", gcanary(&k)); jend();
+    emit_obj(re ? "HmReinit" : "HmInit", o); jbytes("k", k.p, k.len); jint("kcanary", gcanary(&k)); jint("taint", vgerr); jend();
     gfree(&k);
 }
 static void op_hmupdate(void)
@@ -603,9 +614,13 @@ static void op_hmupdate(void)
     gbuf *o = getobj(hmacobj, "hmacstate", sizeof(tinyjambu_hmac_state_t));
     gbuf d; gvalue(&d, "in", kv("d", "-"), 1);
     gro(&d);
+    long vg0 = VG_ERRORS();
+    SECRET(d.p, d.len);
     tinyjambu_hmac_update((tinyjambu_hmac_state_t *)o->p, gptr(&d), d.len);
+    PUBLIC(d.p, d.len);
+    long vgerr = VG_ERRORS() - vg0;
     grw(&d);
-    emit_obj("HmUpdate", o); jbytes("d", d.p, d.len); jint("dcanary", gcanary(&d)); jend();
+    emit_obj("HmUpdate", o); jbytes("d", d.p, d.len); jint("dcanary", gcanary(&d)); jint("taint", vgerr); jend();
     gfree(&d);
 }
 static void op_hmfinal(void)
@@ -615,10 +630,14 @@ static void op_hmfinal(void)
     galloc(&out, "out", 32, g_place, g_offn > 0 ? g_off[0] : 0);
     memset(out.p, (int)kvi("pf", 0xA5), 32);
     gro(&k);
+    long vg0 = VG_ERRORS();
+    SECRET(k.p, k.len);
     tinyjambu_hmac_finalize((tinyjambu_hmac_state_t *)o->p, gptr(&k), k.len, out.p);
+    PUBLIC(k.p, k.len); PUBLIC(out.p, 32);
+    long vgerr = VG_ERRORS() - vg0;
     grw(&k);
     emit_obj("HmFinal", o); jbytes("k", k.p, k.len); jbytes("out", out.p, 32);
-    jint("ocanary", gcanary(&out) && gcanary(&k)); jend();
+    jint("ocanary", gcanary(&out) && gcanary(&k)); jint("taint", vgerr); jend();
     gfree(&k); gfree(&out);
 }
 static void op_hmfree(void)
@@ -662,9 +681,13 @@ static void op_hkextract(void)
     gbuf key, salt;
     gvalue(&key, "key", kv("key", "-"), 1); gvalue(&salt, "salt", kv("salt", "-"), 2);
     gro(&key); gro(&salt);
+    long vg0 = VG_ERRORS();
+    SECRET(key.p, key.len); SECRET(salt.p, salt.len);
     tinyjambu_hkdf_extract((tinyjambu_hkdf_state_t *)o->p, gptr(&key), key.len, gptr(&salt), salt.len);
+    PUBLIC(key.p, key.len); PUBLIC(salt.p, salt.len);
+    long vgerr = VG_ERRORS() - vg0;
     grw(&key); grw(&salt);
-    emit_obj("HkExtract", o); jbytes("key", key.p, key.len); jbytes("salt", salt.p, salt.len); jend();
+    emit_obj("HkExtract", o); jbytes("key", key.p, key.len); jbytes("salt", salt.p, salt.len); jint("taint", vgerr); jend();
     gfree(&key); gfree(&salt);
 }
 static void op_hkexpand(void)
@@ -677,10 +700,13 @@ static void op_hkexpand(void)
     galloc(&out, "out", len, g_place, g_offn > 0 ? g_off[0] : 0);
     memset(out.p, pf, len);
     gro(&info);
+    long vg0 = VG_ERRORS();
     int res = tinyjambu_hkdf_expand((tinyjambu_hkdf_state_t *)o->p, gptr(&info), info.len, gptr(&out), len);
+    PUBLIC(out.p, len); PUBLIC(&res, sizeof(res));
+    long vgerr = VG_ERRORS() - vg0;
     grw(&info);
     emit_obj("HkExpand", o); jint("len", (long)len); jbytes("info", info.p, info.len); jint("res", res);
-    jbytes("out", out.p, len); jint("ocanary", gcanary(&out) && gcanary(&info)); jend();
+    jbytes("out", out.p, len); jint("ocanary", gcanary(&out) && gcanary(&info)); jint("taint", vgerr); jend();
     gfree(&info); gfree(&out);
 }
 static void op_hkfree(void)
@@ -689,6 +715,21 @@ static void op_hkfree(void)
     tinyjambu_hkdf_free((tinyjambu_hkdf_state_t *)o->p);
     emit_obj("HkFree", o); jint("size", (long)o->len); jint("nonzero", (long)nonzero(o->p, o->len)); jend();
 }
+
+#ifdef TJD_WRAP_HMAC
+/* Layer boundary interposition (accelerator only, DESIGN.md 5.4): every tinyjambu_hmac_finalize() made inside a
+ * tinyjambu_pbkdf2() call is recorded, so that the c-fold PRF chain can be validated link by link. */
+void __real_tinyjambu_hmac_finalize(tinyjambu_hmac_state_t *state, const unsigned char *key, size_t keylen, unsigned char *out);
+static unsigned char *chain; static size_t chain_n, chain_cap; static int chain_on;
+void __wrap_tinyjambu_hmac_finalize(tinyjambu_hmac_state_t *state, const unsigned char *key, size_t keylen, unsigned char *out)
+{
+    __real_tinyjambu_hmac_finalize(state, key, keylen, out);
+    if (chain_on) {
+        if (chain_n == chain_cap) { chain_cap = chain_cap ? 2 * chain_cap : 1024; chain = realloc(chain, 32 * chain_cap); }
+        memcpy(chain + 32 * chain_n++, out, 32);
+    }
+}
+#endif
 
 /* pbkdf2 len= pw= salt= count= */
 static void op_pbkdf2(void)
@@ -702,13 +743,31 @@ static void op_pbkdf2(void)
     gro(&pw); gro(&salt);
     long vg0 = VG_ERRORS();
     SECRET(pw.p, pw.len); SECRET(salt.p, salt.len);
+#ifdef TJD_WRAP_HMAC
+    chain_n = 0; chain_on = (int)kvi("chain", 0);
+#endif
     tinyjambu_pbkdf2(gptr(&out), len, gptr(&pw), pw.len, gptr(&salt), salt.len, count);
+#ifdef TJD_WRAP_HMAC
+    chain_on = 0;
+#endif
     PUBLIC(pw.p, pw.len); PUBLIC(salt.p, salt.len); PUBLIC(out.p, len);
     long vgerr = VG_ERRORS() - vg0;
     grw(&pw); grw(&salt);
     jbegin("Pbkdf2"); jint("len", (long)len); jint("count", (long)count);
     jbytes("pw", pw.p, pw.len); jbytes("salt", salt.p, salt.len); jbytes("out", out.p, len);
-    jint("canary", gcanary(&out) && gcanary(&pw) && gcanary(&salt)); jint("taint", vgerr); jend();
+    jint("canary", gcanary(&out) && gcanary(&pw) && gcanary(&salt)); jint("taint", vgerr);
+#ifdef TJD_WRAP_HMAC
+    if (kvi("chain", 0)) {
+        printf(",\"chain\":[");
+        for (size_t i = 0; i < chain_n; i++) {
+            printf(i ? ",[" : "[");
+            for (int j = 0; j < 32; j++) printf(j ? ",%u" : "%u", chain[32 * i + j]);
+            printf("]");
+        }
+        printf("]");
+    }
+#endif
+    jend();
     gfree(&pw); gfree(&salt); gfree(&out);
 }
 
@@ -815,6 +874,7 @@ static void op_pinit(void)
     const char *src = kv("src", "cb");
     gbuf cu; gvalue(&cu, "custom", kv("custom", "-"), 1);
     int res;
+    long vg_init0 = VG_ERRORS();
     ncalls = 0;
     gro(&cu);
     if (!strcmp(src, "cb"))
@@ -824,8 +884,9 @@ static void op_pinit(void)
     else
         res = tinyjambu_prng_init((tinyjambu_prng_state_t *)o->p, gptr(&cu), cu.len);
     grw(&cu);
+    PUBLIC(&res, sizeof(res));
     emit_obj("PInit", o); jstr("src", src); jbytes("custom", cu.p, cu.len); jint("cnull", cu.isnull); jint("res", res);
-    jentropy(); jend();
+    jint("taint", VG_ERRORS() - vg_init0); jentropy(); jend();
     gfree(&cu);
 }
 static void op_pgen(void)
@@ -860,17 +921,24 @@ static void op_pfeed(void)
     gbuf d; gvalue(&d, "data", kv("d", "-"), 1);
     ncalls = 0;
     gro(&d);
+    long vg0 = VG_ERRORS();
+    SECRET(d.p, d.len);
     tinyjambu_prng_feed((tinyjambu_prng_state_t *)o->p, gptr(&d), d.len);
+    PUBLIC(d.p, d.len);
+    long vgerr = VG_ERRORS() - vg0;
     grw(&d);
-    emit_obj("PFeed", o); jbytes("d", d.p, d.len); jentropy(); jend();
+    emit_obj("PFeed", o); jbytes("d", d.p, d.len); jint("taint", vgerr); jentropy(); jend();
     gfree(&d);
 }
 static void op_preseed(void)
 {
     gbuf *o = getobj(prngobj, "prngstate", sizeof(tinyjambu_prng_state_t));
     ncalls = 0;
+    long vg0 = VG_ERRORS();
     int res = tinyjambu_prng_reseed((tinyjambu_prng_state_t *)o->p);
-    emit_obj("PReseed", o); jint("res", res); jentropy(); jend();
+    PUBLIC(&res, sizeof(res));
+    long vgerr = VG_ERRORS() - vg0;
+    emit_obj("PReseed", o); jint("res", res); jint("taint", vgerr); jentropy(); jend();
 }
 static void op_plimit(void)
 {
